@@ -85,6 +85,10 @@ static void vfh_digest(mpz_ptr r, unsigned n, const long *vals) {
 size_t vfstub_shash_len() { return (H_DBITS + 7) / 8; }
 // the string/tagged variants get a distinct leading marker value so that different framings never coincide
 void vfstub_shash_va(mpz_ptr r, size_t n, ...) {
+#ifdef H_FP_IDENTITY
+  // fingerprints (one-argument hashes, used as map keys) by a fixed injective function: keeps map shapes concrete
+  if (n == 1) { va_list ap0; va_start(ap0, n); mpz_srcptr a0 = va_arg(ap0, mpz_srcptr); va_end(ap0); mpz_set_ui(r, mpz_get_ui(a0) & ((1UL << H_DBITS) - 1)); return; }
+#endif
   long vals[H_HARGS]; unsigned k = 0; vals[k++] = -1000 - (long)n;
   va_list ap; va_start(ap, n);
   for (size_t i = 0; i < n && k < H_HARGS; ++i) { mpz_srcptr a = va_arg(ap, mpz_srcptr); vals[k++] = vfh_val(a); }
